@@ -53,7 +53,7 @@ def transforms(rng, p, r):
 def run(ctx):
     common.serial_pool()
     rng = ctx.rng
-    for _ in range(ctx.scale(60, 700)):
+    for _ in range(ctx.scale(130, 1200)):
         it = rng.choice(["matched", "unmatched", "unmatched", "semantic"])
         p, r = impl.rand_pair(rng, max_side=6, max_inst=3)
         cfg = gen_cfg(rng, it)
